@@ -19,7 +19,8 @@ TECHNIQUE = ("property-based metamorphic testing (Hypothesis): each generated re
              "with a permuted registration order of modifications at different locations, and with junk nodes perturbing "
              "set layouts; all UUID-free canonical dumps must be identical")
 RULE = ("cases as in C01-C03 (several byte intervals per section; patches optionally with Constraints: clobbered / scratch / "
-        "caller-saved registers, flags, align_stack). For every spec: the canonical dump (block boundaries, edge multiset, symbol names incl. "
+        "caller-saved registers, flags, align_stack; in half of the cases the input's return edges are perturbed: one removed, "
+        "one added, or the returning blocks of a function given different return sites). For every spec: the canonical dump (block boundaries, edge multiset, symbol names incl. "
         "temporary-label suffixes, aux data) of (base run) == (second run, fresh UUIDs) == (registration order permuted "
         "among modifications that target different locations) == (junk symbols/proxies added first) == (the same spec "
         "rewritten in K child processes with other PYTHONHASHSEED values; quick K=3, thorough K=8). An exception in one "
